@@ -419,6 +419,14 @@ impl Logger {
     pub fn max_log_level(&self) -> LevelFilter {
         self.0.load().root.max_log_level()
     }
+
+    /// Verification hook: a `Handle` for a logger that is not the global one.
+    #[cfg(log4rs_verif)]
+    pub fn verif_handle(&self) -> Handle {
+        Handle {
+            shared: self.0.clone(),
+        }
+    }
 }
 
 impl log::Log for Logger {
